@@ -29,6 +29,12 @@ add('C11', 'recorders on the four junior scoring functions + exact Fraction/Deci
 add('C05', 'recorders on all six scoring functions feeding an online sorted-map monotonicity monitor per table key, range monitor, Tyrving hand-vs-electronic pairing',
     'Adjacent marks on the 0.01 grid for every table key of every system (whole grids where small, boundary and seeded windows for long road events; whole grids in thorough), every insertion compared with both neighbours, so any observed inversion is found regardless of presentation order.',
     'Hungarian timed marks slower than the zero-point of the parabola are outside the property.', 'C05')
+add('C14', 'recorders on the public WMA wrappers; definedness online, consistency relation on accessor values, spelling monitor keyed by canonical query, grade monotonicity monitor',
+    'Both single-event tables and the combined-events table x 6 gender spellings x every tabulated event in both letter cases x boundary ages (every integer and half-integer age in thorough) x performances around the open best through the real wrappers.',
+    'Domain (first non-null column, last column) read from the JSON files; combined-events grader judged on factor clauses only.', 'C14')
+add('C15', 'recorders on wma_age_factor / wma_world_best; envelope oracle from the table\'s own distance column, open-best monotonicity monitor along the distance axis',
+    'Whole-metre distances 20 m..400 km (all up to 30 km and every 37th beyond in quick; all in thorough) plus +-5 m around every tabulated distance and road spellings N[.dd]K / N[.dd]M, x gender x year x ages; every observed call judged against the bracketing rows.',
+    'All rows tying for nearest shorter / longer contribute to the envelope, so neither reading of the track/road seam is imposed.', 'C15')
 _all = ['C%02d' % i for i in range(1, 20)]
 for p in _all:
     if p not in CHECKS:
